@@ -338,6 +338,21 @@ def run(prog: Program) -> Results:
         res.unclass("_resolve_identifier._resolve_binding vanished")
     else:
         chain_param = rb.params()[1] if len(rb.params()) > 1 else None
+        # the value a binding resolves to is looked at in the chain of the scope that holds the binding: it receives that chain
+        # on every path that hands it back (a chain some earlier lookup left on the value belongs to another place)
+        rcfg_ = CFG(rb.node)
+        stamps = [n for n in rcfg_.nodes if n.ast is not None and n.kind == "stmt" and any(
+            isinstance(c, ast.Call) and callee(c) == "set_resolution_context" and len(c.args) >= 2 and norm(c.args[1]) == chain_param
+            for c in ast.walk(n.ast))]
+        for rt in [n for n in rcfg_.nodes if n.kind == "return" and isinstance(n.ast.value, ast.Tuple)]:
+            r5.instances += 1
+            ok = bool(stamps) and rcfg_.all_paths_pass(rt, cut_nodes=stamps)
+            r5.ob(ok, {"site": rb.key, "return": norm(rt.ast)[:50], "stamped_on_every_path": ok})
+            if not ok:
+                res.add("R-C10-5", (rb.key, "resolved value handed back without the chain of its definition site"), rb.loc(rt.ast),
+                        f"{rb.key}: `{norm(rt.ast)[:50]}` is reachable without `set_resolution_context(<value>, {chain_param})`: a value that "
+                        f"still carries the chain of an earlier lookup elsewhere (e.g. the use site of a `with`) resolves its own "
+                        f"references there — names are picked up from scopes that do not enclose the definition")
         for c in walk_no_nested(rb.node):
             if isinstance(c, ast.Call) and callee(c) in ("_resolve_identifier", "set_resolution_context"):
                 r5.instances += 1
